@@ -45,7 +45,7 @@ def handle (args : List String) : Option String :=
       | some e => e.2
       | none => (none, 0)
     let regs : List RegView := views s ph infoF
-    let revF : Nat → Option String := fun o => (rev.find? (fun e => e.1 == o)).map (·.2)
+    let revF : Bytes → Option String := fun w => (rev.find? (fun e => window d e.1 == w)).map (·.2)
     let v ← match tr with
       | "min" => some (wrapMin regs d)
       | "prefix" => some (wrapPrefix CJ.Gen.prefixTable revF regs d)
